@@ -315,7 +315,7 @@ package consensus
 //@ smt int lemma (define-fun-rec psum ((S (Array Int Int)) (k Int)) Int (ite (<= k 0) 0 (+ (psum S (- k 1)) (select S (- k 1)))))
 //@ smt int func (declare-fun psum ((Array Int Int) Int) Int)
 //@ lemma psum_zero int : forall S intarr :: {psum(S, 0)} psum(S, 0) == 0
-//@ lemma psum_step int : forall S intarr, k int :: {psum(S, k + 1)} k >= 0 ==> psum(S, k + 1) == psum(S, k) + S[k]
+//@ lemma psum_step int : forall S intarr, k int :: {psum(S, k)} k > 0 ==> psum(S, k) == psum(S, k - 1) + S[k - 1]
 
 //@ smt all (declare-fun wal_file (Str Int) Str)
 //@ axiom wal_file_injective int : forall id str, a int, b int :: {wal_file(id, a), wal_file(id, b)} wal_file(id, a) == wal_file(id, b) ==> a == b
